@@ -1,11 +1,14 @@
-"""C10 -- Earley parser: bounded, exhaustive per bound, against an independent recogniser (nothing proved)."""
+"""C10 -- Earley parser.  Proved: chart soundness (scan/predict/complete/fill_chart/Column.add keep every state
+justified by a derivation; acceptance implies membership).  Bounded, exhaustive per bound: completeness, trees,
+ISLaSolver.parse against an independent recogniser."""
 from vlib.harness import proved_tier
 from checks import bounded_C10
 
-LEVEL = "exploration"
+LEVEL = "other"
 
 
 def run(rep, tier, seed):
+    proved_tier(rep, "C10", seed, expected_min_obligations=20)
     bounded_C10.run(rep, tier, seed)
 
 
